@@ -471,7 +471,7 @@ C12_LOOPS = {"cellToLocalIjk.0": 7, "cellToLocalIjk.1": 7, "cellToLocalIjk.2": 7
 
 @prop("C12",
       functions=["every exported function listed in the job names; internal NEVER/ALWAYS/assert sites become proof obligations (build without NDEBUG)"],
-      bounds={"quick": "arbitrary 64-bit words / ints / int64 / doubles. Single-word integer APIs: all 2^64 words. APIs walking the digits (disks k<=1, pairs, local IJ): words whose resolution field is 0 (every other bit arbitrary, incl. invalid digits, modes, base cells 122-127). compactCells: 3 arbitrary words; uncompactCells: 2 words, <= 14 outputs; cellToChildren: one level",
+      bounds={"quick": "arbitrary 64-bit words / ints / int64 / doubles. Single-word integer APIs: all 2^64 words. APIs walking the digits (disks k<=1, pairs, local IJ): words whose resolution field is 0 (local IJ functions also 1; every other bit arbitrary, incl. invalid digits, modes, base cells 122-127). compactCells: 3 arbitrary words; uncompactCells: 2 words, <= 14 outputs; cellToChildren: one level",
               "thorough": "digit-walking APIs at resolution fields 0-3; cellToVertex at field 0 (class L)"},
       outside="k >= 2, larger sets, deeper children; every API that reaches trigonometry or the FP cell-boundary code (latLngToCell beyond argument validation, cellToLatLng, cellToBoundary, vertexToLatLng, areas, edge lengths, polygon functions, cellsToLinkedMultiPolygon): their integer prefixes are covered by C02/C03/C19 jobs, the FP kernels are not decided",
       assumptions=["malloc does not fail in these jobs (allocation failure is C17)", "S-TRIG stubs for greatCircleDistance*"],
@@ -504,8 +504,8 @@ def c12(tier):
                     continue
                 js.append(ub("%s_r%d_k%s" % (nm, r, "neg" if kk < 0 else kk), ["-DDISK", "-DFN=%d" % fn, "-DRES=%d" % r, "-DKK=%d" % kk], unwind=max(r + 2, 4), est=150 + 60 * r, mem="M", tier=t, timeout=2400, bound="words with resolution field %d, k %s" % (r, "< 0" if kk < 0 else "= %d" % kk)))
         for fn, nm in enumerate(("areNeighborCells", "cellsToDirectedEdge", "getDirectedEdgeDestination", "directedEdgeToCells", "gridDistance", "cellToLocalIj")):
-            js.append(ub("%s_r%d" % (nm, r), ["-DPAIR", "-DFN=%d" % fn, "-DRES=%d" % r], unwind=max(r + 2, 4), est=150 + 60 * r, mem="M", tier=t, timeout=2400, bound="first word with resolution field %d, second arbitrary" % r))
-        js.append(ub("localIjToCell_r%d" % r, ["-DIJ2CELL", "-DRES=%d" % r], unwind=r + 2, est=150 + 60 * r, mem="M", tier=t, timeout=2400, bound="origin word with resolution field %d, all int32 i,j, all modes" % r))
+            js.append(ub("%s_r%d" % (nm, r), ["-DPAIR", "-DFN=%d" % fn, "-DRES=%d" % r], unwind=max(r + 2, 4), est=150 + 60 * r, mem="M", tier=("quick" if (r == 1 and fn in (4, 5)) else t), timeout=2400, bound="first word with resolution field %d, second arbitrary" % r))
+        js.append(ub("localIjToCell_r%d" % r, ["-DIJ2CELL", "-DRES=%d" % r], unwind=r + 2, est=150 + 60 * r, mem="M", tier=("quick" if r == 1 else t), timeout=2400, bound="origin word with resolution field %d, all int32 i,j, all modes" % r))
     for r in (0,):
         for fn, nm in enumerate(("cellToVertex", "cellToVertexes", "isValidVertex", "getIcosahedronFaces")):
             if fn != 0:
@@ -662,6 +662,7 @@ def c06(tier):
         j = J("small3_r%d" % r, "C06_compact.c", ["-DSMALL", "-DN=3", "-DRES=%d" % r], unwind=17, us=CPL, est=40, mem="M", bound="3 distinct valid cells of res %d" % r)
         js += with_witness(j) if r == 5 else [j]
     js.append(J("small5_r3", "C06_compact.c", ["-DSMALL", "-DN=5", "-DRES=3"], unwind=17, us=CPL, est=200, mem="M", tier="thorough", timeout=2400, bound="5 distinct valid cells of res 3"))
+    # complete child families were probed three times (symbolic sizes, constant sizes, fixed-size allocator shim): 9-30 GB, no verdict - not registered
     for r in (0, 7, 14):
         j = J("cap_r%d" % r, "C06_compact.c", ["-DCAP", "-DRES=%d" % r], unwind=17, us=CPL, est=60, mem="M", bound="2 valid cells of res %d, capacity 0-14, target res <= %d" % (r, r + 1))
         js += with_witness(j) if r == 7 else [j]
